@@ -1084,6 +1084,7 @@ func c14QuotedNames(c *Ctx) {
 	}
 	sort.Slice(fns, func(i, j int) bool { return w.fname(fns[i]) < w.fname(fns[j]) })
 	n := 0
+	nSemi := 0
 	for _, fn := range fns {
 		per := map[byte]int{}
 		for _, cs := range w.callsIn(fn) {
@@ -1097,7 +1098,17 @@ func c14QuotedNames(c *Ctx) {
 				continue
 			}
 			b, isB := constByte(call.Call.Args[1])
-			if !isB || (b != '<' && b != '>' && b != ',') {
+			isSplit := cs.Name == "strings.Split" || cs.Name == "strings.SplitN" || cs.Name == "splitUnquoted"
+			if !isB || (b != '<' && b != '>' && b != ',' && !(b == ';' && isSplit)) {
+				continue
+			}
+			if b == ';' {
+				// the header parameters behind the address: a value may be a quoted-string holding a ';'
+				// (;x="a;tag=zz";tag=t1 - the tag is t1). Repaired as D29.
+				nSemi++
+				per[b]++
+				aware := callee != nil && w.isMain(callee) && looksAtQuotes(callee, 0)
+				c.check(aware, rule, fmt.Sprintf("%s/quoted-parameter-value#%d", w.fname(fn), per[b]), w.ipos(call), "the header parameters are cut with a splitter that leaves quoted-strings alone", fmt.Sprintf("%s cuts the header parameters at every ';' with %s, also at one inside a quoted parameter value: From: <sip:a@h>;x=\"q;tag=zz\";tag=t1 is decoded with the tag zz\" - the dialog identifier is built from a text the header does not denote as its tag", w.fname(fn), cs.Name))
 				continue
 			}
 			n++
@@ -1112,6 +1123,7 @@ func c14QuotedNames(c *Ctx) {
 			c.check(aware, rule, fmt.Sprintf("%s/quoted-display-name/%q#%d", w.fname(fn), string(b), per[b]), w.ipos(call), "searches with a function that leaves quoted-strings alone", fmt.Sprintf("%s looks for %q with %s, which also finds it inside a quoted display name: From: \"Bob <work>\" <sip:bob@example.com>;tag=x is decoded with the address \"work\" and written back as \"Bob <work>;tag=x (the URI is lost), a Route list with \"Smith, John\" <sip:..> cannot be decoded at all", w.fname(fn), string(b), cs.Name))
 		}
 	}
+	c.check(nSemi >= 4, rule, "quoted-parameter-value/floor", "-", "parameter splits found", fmt.Sprintf("only %d splits of header parameters at ';' found in the decoders that carry a name-addr (expected >= 4)", nSemi))
 	c.check(n >= 8, rule, "quoted-display-name/floor", "-", "searches in name-addr decoders found", fmt.Sprintf("only %d searches for '<', '>' or ',' found in the decoders that carry a name-addr (expected >= 8)", n))
 	// inside a quoted-string a backslash quotes the next character (quoted-pair). A scanner with a single loop that
 	// decides whether a '"' is escaped by looking at the one byte before it is wrong: in "Ann \\" the closing quote
